@@ -128,8 +128,26 @@ def run_cases(cases, workers=None):
         build.build(config=cfg, lane=lane)
     if workers == 1 or len(cases) == 1:
         return [run_case(c) for c in cases]
+    # scheduling only: the longest histories are handed out first and one case at a time, so that a run does not end with two
+    # workers going through a chunk of long cases while fourteen sit idle; results come back in the order of `cases`
+    def cost(c):
+        p = c.get("params") or {}
+        n = p.get("n_ops", 0)
+        return n if isinstance(n, (int, float)) else 0
+    order = sorted(range(len(cases)), key=lambda i: -cost(cases[i]))
+    heavy = [i for i in order if cost(cases[i]) >= 1000]
+    light = [i for i in order if cost(cases[i]) < 1000]
+    light.sort()
+    out = [None] * len(cases)
     with multiprocessing.Pool(workers) as pool:
-        return pool.map(run_case, cases, chunksize=max(1, len(cases) // (workers * 8)))
+        rh = pool.map_async(run_case, [cases[i] for i in heavy], chunksize=1) if heavy else None
+        rl = pool.map(run_case, [cases[i] for i in light], chunksize=max(1, len(light) // (workers * 8))) if light else []
+        for i, r in zip(light, rl):
+            out[i] = r
+        if rh is not None:
+            for i, r in zip(heavy, rh.get()):
+                out[i] = r
+    return out
 
 
 def report(prop, level, results, rule, t0, tier_name, assumptions=(), extra_cov=None, min_events=None):
